@@ -1116,8 +1116,10 @@ theorem P_handleChallenge {ex} (c : Cfg) (src n cd es) :
   | none => exact Ho.pure _ (fun st hp => hp.1 rfl)
   | some call0 =>
     refine Ho.pre (P' := fun st => PX ex (addCall call0 st)) ?_ (fun st hp => hp.2 _ rfl)
-    refine Ho.ite (fun _ => ?_) (fun _ => Ho.ite (fun _ => ?_) (fun _ => ?_))
+    refine Ho.ite (fun _ => ?_) (fun _ => Ho.ite (fun _ => ?_) (fun _ => Ho.ite (fun _ => ?_) (fun _ => ?_)))
     · exact Ho.bind (P_activeInsert_hand c call0 call0 (fun _ h => h)) (fun _ => Ho.pureI _)
+    · refine Ho.pre ?_ (fun st hp => hp.of_addCall)
+      exact Ho.bind (P_removeExpected _) (fun _ => Ho.bind (P_failRequest ..) (fun _ => Ho.pureI _))
     · refine Ho.pre ?_ (fun st hp => hp.of_addCall)
       exact Ho.bind (P_removeExpected _) (fun _ => Ho.bind (P_failRequest ..) (fun _ => Ho.pureI _))
     · refine Ho.pre (P' := PX (exO ex (callNA call0))) ?_ (fun st hp => hp.of_addCall)
@@ -2014,8 +2016,9 @@ theorem A_handleChallenge (c : Cfg) (hl : 1 ≤ c.localId) (src n cd es) :
   | none => exact Ho.pure _ (fun _ hp => hp.1 rfl)
   | some call0 =>
     refine Ho.pre (P' := Acc rid n1 n2 z (call0.item :: H)) ?_ (fun _ hp => hp.2 _ rfl)
-    refine Ho.ite (fun _ => ?_) (fun _ => Ho.ite (fun _ => ?_) (fun _ => ?_))
+    refine Ho.ite (fun _ => ?_) (fun _ => Ho.ite (fun _ => ?_) (fun _ => Ho.ite (fun _ => ?_) (fun _ => ?_)))
     · exact Ho.bind (A_activeInsert c call0 _ rfl) (fun _ => Ho.pureI _)
+    · exact Ho.bind (A_removeExpected _) (fun _ => Ho.bind (A_failRequest ..) (fun _ => Ho.pureI _))
     · exact Ho.bind (A_removeExpected _) (fun _ => Ho.bind (A_failRequest ..) (fun _ => Ho.pureI _))
     · refine Ho.bind (A_freshEph c) (fun eph => Ho.bind (A_freshNonce c) (fun hsNonce => ?_))
       split <;> split
